@@ -1,11 +1,30 @@
 package db
 
-import bolt "go.etcd.io/bbolt"
+import (
+	"fmt"
+
+	bolt "go.etcd.io/bbolt"
+)
 
 // bolt's Batch runs the function on a goroutine of its own (a timer or a freshly started one) and
 // may coalesce it with other callers': which goroutine runs repository code, and when, is bolt's
-// unseeded decision. In the instrumented copy a batch is one update transaction on the calling
-// task. What is lost is only bolt's write coalescing; exclusion and atomicity are the same.
+// unseeded decision. In the instrumented copy a batch runs on the calling task with bolt's own
+// semantics for a single caller: the function runs inside an update transaction with panics turned
+// into errors; when it fails the transaction is rolled back and the function is run once more on its
+// own ("trySolo"), whose result is returned. What is lost is only the coalescing of several callers.
 func verifBatch(db *bolt.DB, fn func(*bolt.Tx) error) error {
-	return db.Update(fn)
+	failed := false
+	err := db.Update(func(tx *bolt.Tx) (err error) {
+		defer func() {
+			if p := recover(); p != nil {
+				err = fmt.Errorf("panic in batch function: %v", p)
+			}
+			failed = err != nil
+		}()
+		return fn(tx)
+	})
+	if failed {
+		return db.Update(fn)
+	}
+	return err
 }
